@@ -390,7 +390,7 @@ def model_line(case, ap, names):
         else:
             c2.replace_with(hole)
             ctx = R.ex(tree.rhs, names)
-        line = ["red", fresh("idx"), fresh("tmp_var"), case["trans"][:-9].lower(), expr, mask,
+        line = ["red", fresh("idx"), fresh("tmp_var"), case["target"][1].lower(), expr, mask,
                 1 if pos["dim"] is not None else 0, R.tgt_of(stmt.lhs, names), names.id(FRESH["hole"]), ctx, R.HUGE]
 
         def cmp(ans):
@@ -441,6 +441,59 @@ def evaluate(case, params):
     return src, ap
 
 
+TOLERATED = (ValueError, IndexError, AttributeError, KeyError, TypeError, NotImplementedError)
+TOLERATED_NAMES = ("InternalError", "GenerationError", "SymbolError", "VisitorError", "FortranSyntaxError", "NoMatchError")
+
+
+def tolerated(err):
+    return isinstance(err, TOLERATED) or type(err).__name__ in TOLERATED_NAMES
+
+
+def psy_batch(batch, params):
+    """apply the real transformations of all cases of a batch inside ONE program (last block first,
+    so that earlier positions stay valid).  Returns (entries, src, out_src) or None if the batch
+    has to be evaluated case by case."""
+    try:
+        src, n_init, starts = R.program_multi(params, [c["stmts"] for c in batch])
+        psyir, routine = R.parse(src)
+        entries = [None] * len(batch)
+        for j in reversed(range(len(batch))):
+            case = batch[j]
+            ap = R.apply_at(psyir, routine, starts[j] + n_init + len(case["stmts"]) - 1, case["trans"], case["target"])
+            entries[j] = make_entry(case, params, ap)
+        return entries, src, R.write(psyir)
+    except Exception as err:
+        if not tolerated(err):
+            raise
+        return None
+
+
+def make_entry(case, params, ap):
+    entry = {"case": case, "params": params, "refused": ap.refused, "cmp": None, "line": None, "real": None}
+    names = minif.Names()
+    try:
+        line, cmp = model_line(case, ap, names)
+        entry["cmp"], entry["line"] = cmp, sx(line)
+    except (R.OutOfDomain, minif.Unsupported):
+        pass
+    try:
+        entry["real"] = ap.refused or R.ex_stmts(ap.new_stmts, minif.Names())
+    except (R.OutOfDomain, minif.Unsupported):
+        entry["real"] = "not exportable"
+    return entry
+
+
+def single(case, params):
+    """case-by-case evaluation: (entry, (src, out_src) or None) or None if the case cannot be processed"""
+    try:
+        src, ap = evaluate(case, params)
+    except Exception as err:
+        if not tolerated(err):
+            raise
+        return None
+    return make_entry(case, params, ap), (None if ap.refused else (src, ap.out_src))
+
+
 def run(chk):
     chk.cov["rule"] = ("generated statements (array-section assignments incl. overlapping / strided / empty sections and "
                        "non-unit lower bounds; ABS/SIGN/MIN/MAX calls with 1..4 arguments inside scalar assignments; "
@@ -460,54 +513,68 @@ def run(chk):
     chk.lean()
     findings = common.known_findings("C06")
     rng = chk.rng
-    n = {"quick": 260, "thorough": 2500}[chk.tier]
+    nb, bs = {"quick": (8, 24), "thorough": (100, 24)}[chk.tier]
     gens = [case_aa] * 6 + [case_intr] * 4 + [case_red] * 6 + [case_dot] * 2 + [case_matmul] * 2 + [case_misc]
-    cases = [(dict(c), R.gen_params(__import__("random").Random(7))) for c in CORPUS]
+    cparams = R.gen_params(__import__("random").Random(7))
+    cparams["n"], cparams["k"] = 4, 2
+    batches = [([dict(c) for c in CORPUS], cparams)]
     cdir = os.path.join(common.ROOT, "corpus", "C06")
     if os.path.isdir(cdir):
         for f in sorted(os.listdir(cdir)):
             d = json.load(open(os.path.join(cdir, f)))
-            cases.append((d["case"], d["params"]))
-    for _ in range(n):
+            batches.append(([d["case"]], d["params"]))
+    for _ in range(nb):
         params = R.gen_params(rng)
-        cases.append((rng.choice(gens)(Gen(rng, params)), params))
+        g = Gen(rng, params)
+        batches.append(([rng.choice(gens)(g) for _ in range(bs)], params))
 
-    dist, lines, pend = {}, [], []
-    for case, params in cases:
-        key = case["kind"] + ":" + case["flavour"]
-        try:
-            src, ap = evaluate(case, params)
-        except Exception as err:      # generator produced something the frontend/transformation cannot digest
-            dist[key + ":error"] = dist.get(key + ":error", 0) + 1
-            if not isinstance(err, (ValueError, IndexError, AttributeError, KeyError, TypeError, NotImplementedError)) \
-                    and type(err).__name__ not in ("InternalError", "GenerationError", "SymbolError", "VisitorError"):
-                raise
+    dist = {}
+    done = []          # (entry, verdict)
+    pending = []       # (entries, src, out_src)
+    singles = []       # (case, params)
+    for batch, params in batches:
+        res = psy_batch(batch, params)
+        if res is None:
+            singles += [(c, params) for c in batch]
+        else:
+            pending.append(res)
+    outs = R.run_pairs([(src, out) for _, src, out in pending], checks=False, raw=True)
+    for (entries, src, out), ((s0, o0), (s1, o1)) in zip(pending, outs):
+        if s0 != "ok" or s1 != "ok":
+            singles += [(e["case"], e["params"]) for e in entries]
             continue
-        dist[key + (":refused" if ap.refused else ":accepted")] = dist.get(key + (":refused" if ap.refused else ":accepted"), 0) + 1
-        names = minif.Names()
-        entry = {"case": case, "params": params, "src": src, "ap": ap, "cmp": None}
-        try:
-            line, cmp = model_line(case, ap, names)
-            entry["cmp"], entry["line"] = cmp, sx(line)
-            lines.append(entry["line"])
-        except (R.OutOfDomain, minif.Unsupported):
-            pass
-        pend.append(entry)
-    answers = iter(common.driver("C06", lines))
-    pairs = [(e["src"], e["ap"].out_src) for e in pend if not e["ap"].refused]
-    verdicts = iter(R.run_pairs(pairs))
+        b0, b1 = R.split_blocks(o0), R.split_blocks(o1)
+        for j, e in enumerate(entries):
+            if e["refused"]:
+                done.append((e, ("refused", "", "")))
+            elif j not in b0 or j not in b1:
+                singles.append((e["case"], e["params"]))
+            else:
+                done.append((e, ("same" if b0[j] == b1[j] else "differ", b0[j], b1[j])))
+    dist["evaluated case by case"] = len(singles)
+    sres = [(single(c, p), c) for c, p in singles]
+    spairs = [r[1] for r, _ in sres if r is not None and r[1] is not None]
+    sverd = iter(R.run_pairs(spairs))
+    for r, c in sres:
+        if r is None:
+            key = c["kind"] + ":" + c["flavour"] + ":error"
+            dist[key] = dist.get(key, 0) + 1
+            continue
+        done.append((r[0], ("refused", "", "") if r[1] is None else next(sverd)))
+
+    answers = iter(common.driver("C06", [e["line"] for e, _ in done if e["line"]]))
     reported = set()
-    for e in pend:
-        case, ap = e["case"], e["ap"]
-        agreed = True
-        if e["cmp"] is not None:
+    for e, verdict in done:
+        case = e["case"]
+        key = case["kind"] + ":" + case["flavour"] + (":refused" if e["refused"] else ":accepted")
+        dist[key] = dist.get(key, 0) + 1
+        agreed, ans = True, None
+        if e["line"]:
             raw = next(answers)
             if not raw.startswith("("):
                 raise common.Infra(f"C06 driver: {raw} on {e['line']}")
             agreed, ans = e["cmp"](parse_sx(raw))
-        verdict = ("refused", "", "")
-        if not ap.refused:
-            verdict = next(verdicts)
+            dist["model-compared"] = dist.get("model-compared", 0) + 1
         nontriv = verdict[0] in ("same", "differ")
         chk.case({"stmts": case["stmts"], "target": case["target"], "trans": case["trans"]}, nontrivial=nontriv, agreed=agreed)
         dist["verdict:" + verdict[0]] = dist.get("verdict:" + verdict[0], 0) + 1
@@ -517,15 +584,15 @@ def run(chk):
                 sig = (case["kind"], case["flavour"])
                 if sig not in reported and len(reported) < 6:
                     reported.add(sig)
-                    chk.violation({"kind": "failing-input", "case": case, "params": e["params"], "source": e["src"],
-                                   "transformed": ap.out_src, "expected": verdict[1], "observed": verdict[2],
+                    src1, ap1 = evaluate(case, e["params"])
+                    chk.violation({"kind": "failing-input", "case": case, "params": e["params"], "source": src1,
+                                   "transformed": ap1.out_src, "expected": str(verdict[1])[:3000], "observed": str(verdict[2])[:3000],
                                    "what": "transformed program prints different values than the original"})
             else:
                 dist["known:" + cls] = dist.get("known:" + cls, 0) + 1
         if not agreed:
             chk.correspondence_broken(f"{case['trans']} differs from the Lean model on {case['stmts']}",
-                                      {"case": case, "params": e["params"]}, ans,
-                                      ap.refused or R.ex_stmts(ap.new_stmts, minif.Names()))
+                                      {"case": case, "params": e["params"]}, ans, e["real"])
     chk.cov["distribution"] = dist
     # known findings: replay the witnesses
     for f in findings:
